@@ -478,6 +478,11 @@ func (cs *clientStream) doHttpCall(transport http.RoundTripper, req *http.Reques
 			}
 			return
 		}
+		if sz > maxMessageSize {
+			// don't allocate on the strength of an implausible size preface
+			rErr = fmt.Errorf("bad size preface: indicated size is too large: %d", sz)
+			return
+		}
 		msg := make([]byte, sz)
 		_, rErr = io.ReadAtLeast(reply.Body, msg, int(sz))
 		if rErr != nil {
